@@ -318,4 +318,58 @@ example : ∃ c : Codec Bytes, c.RoundTrips ∧ strictUnmarshal c [0, 5, 6] = .o
      dec := fun d => match d with | 0 :: m => some (m, []) | 1 :: u => some ([], u) | _ => none },
    by intro m d h; cases h; rfl, rfl, rfl⟩
 
+/-! ## strict codecs over sequences of calls: a result is a value -/
+
+/-- **Later calls never change an earlier result**: whatever calls follow, the bytes a call
+returned are the bytes it returned. -/
+theorem seq_results_kept {M} (c : Codec M) (pre post : List (Call M)) (i : Nat) (hi : i < pre.length) :
+    (runCalls c (pre ++ post) {}).bufs[i]? = (runCalls c pre {}).bufs[i]? := by
+  rw [runCalls_append]
+  apply runCalls_keeps
+  rw [runCalls_bufs_length]; simpa using hi
+
+/-- **Decode what they encode, in any sequence of calls**: for a round-tripping marshaller, the
+encoding the `i`-th call returned for message `m` (`snap`) is, after all later calls of any
+kind, still that encoding (`final = snap`) and decodes strictly to `m` — the property's
+predicate `encodingKept` holds of every encode call of every sequence. -/
+theorem seq_codec_roundtrip {M} [DecidableEq M] (c : Codec M) (h : c.RoundTrips)
+    (pre post : List (Call M)) (m : M) (snap : Bytes)
+    (hs : (runCalls c (pre ++ [.encode m]) {}).bufs[pre.length]? = some (some snap)) :
+    ∃ final, (runCalls c (pre ++ [.encode m] ++ post) {}).bufs[pre.length]? = some (some final) ∧
+      encodingKept snap final (strictUnmarshal c final == .ok m) = true := by
+  have hkeep := seq_results_kept c (pre ++ [Call.encode m]) post pre.length (by simp)
+  refine ⟨snap, ?_, ?_⟩
+  · rw [hkeep, hs]
+  · have hm : strictMarshal c m = some snap := by
+      rw [runCalls_encode_last] at hs
+      simpa using hs
+    simp [encodingKept, strict_codec_roundtrip c h m snap hm]
+
+/-- … and an `Unmarshal` of that result at any later point of the sequence returns `m`. -/
+theorem seq_decode_any_time {M} (c : Codec M) (h : c.RoundTrips)
+    (pre mid post : List (Call M)) (m : M) (d : Bytes) (hm : strictMarshal c m = some d) :
+    (runCalls c (pre ++ [.encode m] ++ mid ++ [.decode pre.length] ++ post) {}).msgs[pre.length + 1 + mid.length]? =
+      some (some (.ok m)) := by
+  have hb : (runCalls c (pre ++ [Call.encode m] ++ mid) {}).bufs[pre.length]? = some (some d) := by
+    rw [seq_results_kept c (pre ++ [Call.encode m]) mid pre.length (by simp), runCalls_encode_last, hm]
+  have hl : (runCalls c (pre ++ [Call.encode m] ++ mid) {}).msgs.length = pre.length + 1 + mid.length := by
+    rw [runCalls_msgs_length]; simp; omega
+  rw [runCalls_append c (pre ++ [Call.encode m] ++ mid ++ [Call.decode pre.length]) post]
+  rw [runCalls_msgs_keeps]
+  · rw [runCalls_append c (pre ++ [Call.encode m] ++ mid) [Call.decode pre.length]]
+    simp only [runCalls, callStep]
+    rw [List.getElem?_append_right (by omega), hl, hb]
+    simp [strict_codec_roundtrip c h m d hm]
+  · rw [runCalls_msgs_length]; simp; omega
+
+/-- Witness that the statement discriminates: were the encoding compacted into a pooled
+scratch buffer whose bytes are handed out, the second encode call would overwrite the first
+result, and decoding the first result would yield the second message. -/
+theorem pooled_buffer_witness :
+    let c : Codec Bytes := { enc := fun m => some (0 :: m),
+                             dec := fun d => match d with | 0 :: m => some (m, []) | _ => none }
+    (runCallsPooled c [.encode [1], .encode [2], .decode 0] {}).msgs[2]? = some (some (.ok [2])) ∧
+    (runCalls c [.encode [1], .encode [2], .decode 0] {}).msgs[2]? = some (some (.ok [1])) := by
+  decide
+
 end ConfModel.Props.C18
